@@ -1,7 +1,8 @@
 """Verus back end: contracts on functions sliced VERBATIM out of the scratch copy of /repo on every run.
 
 Unit `bvh_builder`: bemodel/src/energy/raytracing/bvh.rs
-  extracted items : enum Side, enum NodeType, type NodeId, struct TreeElement<T>, fn generate_node_list
+  extracted items : enum Side, enum NodeType, type NodeId, struct TreeElement<T>, fn generate_node_list,
+                    fn partition_elements_by_centroid
   added           : everything in /verif/verus/bvh_vspec.py and /verif/verus/bvh_ghost.rs.in (ghost code only)
   dropped         : doc comments outside the function, #[derive(Debug)] on the two enums, everything else in bvh.rs
 A verbatim check removes every added line again and compares with the repository text.
@@ -135,13 +136,47 @@ def extract_bvh(scratch):
         raise Undecided("verus extraction: verbatim check failed (generated text minus added lines != repository text)")
 
     ghost = open(os.path.join(VERIF, "verus", "bvh_ghost.rs.in")).read()
-
-    def strip_derive(item):
-        return item
+    gen_part = _extract_partition(vs, src)
 
     text = (vs.HEADER + "\n" + side + "\n\n" + ntype + "\n\n" + nodeid + "\n" + telem + "\n\n" + ghost
-            + "\nimpl<T: Bounded> BVH<T> {\n" + vs.EXTERNAL + "\n" + gen_fn + "\n}\n\n} // verus!\nfn main() {}\n")
+            + "\nimpl<T: Bounded> BVH<T> {\n" + vs.EXTERNAL + "\n" + gen_part + "\n\n" + gen_fn + "\n}\n\n} // verus!\nfn main() {}\n")
     return text, fn
+
+
+def _extract_partition(vs, src):
+    """fn partition_elements_by_centroid, verbatim, with its contract and two ghost inserts"""
+    fn = _slice_item(src, vs.PARTITION_SIG, "fn partition_elements_by_centroid")
+    lines = fn.split("\n")
+    out = [lines[0].rstrip()[:-1].rstrip().replace("-> (Vec<T>, Vec<T>)", "-> (r: (Vec<T>, Vec<T>))") + MARK + "[sig]",
+           "        ensures" + MARK]
+    for lab, cl in vs.PARTITION_ENSURES:
+        out.append(f"            {cl}," + MARK + f"[{lab}]")
+    out.append("    {" + MARK + "[open]")
+    body = lines[1:]
+    after, before = {}, {}
+    for rx, where, text in vs.PARTITION_INSERTS:
+        hits = [i for i, l in enumerate(body) if re.search(rx, l)]
+        if len(hits) != 1:
+            raise Undecided(f"lost anchor: verus insert /{rx}/ matched {len(hits)} lines in partition_elements_by_centroid")
+        (before if where == "before" else after).setdefault(hits[0], []).extend(text.split("\n"))
+    for i, l in enumerate(body):
+        ind = re.match(r"\s*", l).group(0)
+        for t in before.get(i, []):
+            out.append(ind + t + MARK)
+        out.append(l)
+        for t in after.get(i, []):
+            out.append(ind + t + MARK)
+    gen = "\n".join(out)
+    kept = []
+    for l in gen.split("\n"):
+        if MARK in l:
+            if l[l.index(MARK) + len(MARK):].startswith("[sig]"):
+                kept.append(l[:l.index(MARK)].replace("-> (r: (Vec<T>, Vec<T>))", "-> (Vec<T>, Vec<T>)") + " {")
+            continue
+        kept.append(l)
+    if _norm("\n".join(kept)) != _norm(fn):
+        raise Undecided("verus extraction: verbatim check failed for partition_elements_by_centroid")
+    return gen
 
 
 def _label_for(gen_lines, cited):
@@ -272,12 +307,13 @@ def run_traversal(scratch, ob, tier, log):
             lab = vs.LOOP_DECREASES[0]
         elif "precondition not satisfied" in msg or "arithmetic underflow/overflow" in msg:
             lab = "C13.traversal.no_panic"
-        elif lab is None:
-            lab = "C13.traversal.proof"
         src_lines = [gen_lines[l - 1].split(MARK)[0].strip() for l in e["lines"][:3] if 1 <= l <= len(gen_lines)]
+        if lab is None:
+            undecided.append(f"proof hint failed: {msg}: {' <- '.join(src_lines)}")
+            continue
         failed.setdefault(lab, []).append(f"{msg}: {' <- '.join(src_lines)}")
     results = []
-    for lab in labels + (["C13.traversal.proof"] if "C13.traversal.proof" in failed else []):
+    for lab in labels:
         rec = {"obligation": ob["name"], "clause": lab, "backend": "verus", "kind": "deductive", "bound": None,
                "function": "PreorderIter::next (verbatim extraction; AABB::intersects and BVHNode::aabb by contract)",
                "secs": round(secs, 2), "solver_s": round(secs, 2), "checks": verified}
@@ -323,8 +359,10 @@ def run_unit(scratch, ob, tier, log):
     smt = re.search(r"smt-run:\s*(\d+)", out) or re.search(r"total smt.*?(\d+)", out)
     errs = parse_errors(out, gen_lines, 0, 0)
     vs = _load_vspec()
+    part_first = next((i + 1 for i, l in enumerate(gen_lines) if "fn partition_elements_by_centroid(" in l and MARK in l), 0)
+    part_last = next((i + 1 for i, l in enumerate(gen_lines) if i + 1 > part_first and l.rstrip() == "    }"), 0) if part_first else 0
     all_labels = [lab for lab, _ in vs.CONTRACT_ENSURES] + [vs.LOOP_DECREASES[0], "C13.builder.arith_safe", "C13.builder.unwrap_safe"] \
-        + sorted({lab for lab, _ in vs.LOOP_INVARIANTS if lab != "C13.builder.inv"})
+        + sorted({lab for lab, _ in vs.LOOP_INVARIANTS if lab != "C13.builder.inv"}) + [lab for lab, _ in vs.PARTITION_ENSURES] + ["C13.partition.no_panic"]
     failed = {}
     undecided = []
     for e in errs:
@@ -333,31 +371,48 @@ def run_unit(scratch, ob, tier, log):
             undecided.append(msg)
             continue
         lab = _label_for(gen_lines, e["lines"][1:] + e["lines"][:1])
-        if "arithmetic underflow/overflow" in msg or "possible division by zero" in msg:
+        prim = e["lines"][0] if e["lines"] else 0
+        in_partition = part_first <= prim <= part_last
+        if in_partition and MARK not in gen_lines[prim - 1] and ("precondition not satisfied" in msg or "arithmetic underflow/overflow" in msg or "possible division by zero" in msg):
+            # a library call of the real code (split_off, append ...) outside its precondition, or an overflow: a panic
+            lab = "C13.partition.no_panic"
+        elif "arithmetic underflow/overflow" in msg or "possible division by zero" in msg:
             lab = "C13.builder.arith_safe"
         elif "decreases not satisfied" in msg or "must have a decreases" in msg:
             lab = "C13.builder.terminates"
         elif lab is None and "precondition not satisfied" in msg and re.search(r"unwrap\(\)", e["text"]):
             lab = "C13.builder.unwrap_safe"
-        elif lab is None:
-            lab = "C13.builder.proof"
         src_lines = [gen_lines[l - 1].split(MARK)[0].strip() for l in e["lines"][:3] if 1 <= l <= len(gen_lines)]
+        if lab is None:
+            # a proof hint (an added assert / lemma call) no longer goes through: nothing is known about the clauses
+            # that rest on it - undecided, never an alarm
+            undecided.append(f"proof hint failed: {msg}: {' <- '.join(src_lines)}")
+            continue
         failed.setdefault(lab, []).append(f"{msg}: {' <- '.join(src_lines)}")
+    soft_undecided = {}
+    for lab in list(failed):
+        if lab in getattr(vs, "PARTITION_SOFT", []):
+            soft_undecided[lab] = "the proof of this clause did not go through (it rests on a hint about how the halves are re-split); nothing is known: " + "; ".join(failed.pop(lab))[:300]
     results = []
-    for lab in all_labels + (["C13.builder.proof"] if "C13.builder.proof" in failed else []):
+    for lab in all_labels:
         rec = {"obligation": ob["name"], "clause": lab, "backend": "verus", "kind": "deductive", "bound": None,
-               "function": "BVH::generate_node_list (verbatim extraction; partition step assumed by contract P)",
+               "function": ("BVH::partition_elements_by_centroid (verbatim extraction; the plane step - f32 mean + Iterator::partition - assumed to put every element on exactly one side)"
+                            if lab.startswith("C13.partition.") else
+                            "BVH::generate_node_list (verbatim extraction; calls the partition step through its verified contract)"),
                "secs": round(secs, 2), "solver_s": round(secs, 2), "checks": verified}
         if lab in failed:
             rec["status"] = "failed"
             rec["failures"] = [{"clause": lab, "detail": "; ".join(failed[lab])[:600]}]
+        elif lab in soft_undecided:
+            rec["status"] = "undecided"
+            rec["detail"] = soft_undecided[lab]
         elif undecided:
             rec["status"] = "undecided"
             rec["detail"] = "; ".join(undecided)[:300]
         else:
             rec["status"] = "success"
         results.append(rec)
-    if nerr > 0 and not failed and not undecided:
+    if nerr > 0 and not failed and not undecided and not soft_undecided:
         raise Undecided("verus reported errors that could not be attributed:\n" + out[-1500:])
     log(f"verus bvh_builder: {verified} functions verified, {nerr} errors, {secs:.1f}s; failed obligations: {sorted(failed)}")
     return results
